@@ -113,6 +113,17 @@ impl Sanitizer {
                 .trim_start_matches(sep)
                 .trim_end_matches(sep)
                 .to_string();
+
+            // a cut inside a separator of several characters leaves a piece of it behind ("ab--cd" -> "ab-")
+            if self.max_length.is_some() {
+                for k in (1..sep.chars().count()).rev() {
+                    let piece: String = sep.chars().take(k).collect();
+                    if result.ends_with(&piece) {
+                        result.truncate(result.len() - piece.len());
+                        break;
+                    }
+                }
+            }
         }
 
         // cutting a mixed segment can leave an all-digit head ("00a" -> "00")
